@@ -1,9 +1,12 @@
 package main
 
 import (
+	"bytes"
 	"context"
 	"fmt"
 	"os"
+	"runtime/pprof"
+	"strings"
 
 	"go.uber.org/zap"
 	"sync"
@@ -204,16 +207,48 @@ func (c *cluster) maintain() {
 	}
 }
 
-func (c *cluster) close() {
+// close shuts every member down. A member whose Close does not return within a minute (every connection of
+// the in-memory network is closed by then, so nothing outside the member can be holding it) is reported.
+func (c *cluster) close() (hung []string) {
+	type res struct {
+		idx  int
+		done chan struct{}
+	}
+	var rs []res
 	for _, m := range c.mem {
-		m.s.Close()
+		r := res{m.idx, make(chan struct{})}
+		go func() { m.s.Close(); close(r.done) }()
+		rs = append(rs, r)
+	}
+	deadline := time.After(60 * time.Second)
+	for _, r := range rs {
+		select {
+		case <-r.done:
+		case <-deadline:
+			var buf bytes.Buffer
+			pprof.Lookup("goroutine").WriteTo(&buf, 1)
+			dump := buf.String()
+			if j := strings.Index(dump, "syncer.(*Syncer).parallelSync"); j >= 0 {
+				lo, hi := max(0, j-700), min(len(dump), j+900)
+				dump = dump[lo:hi]
+			} else if j := strings.Index(dump, "syncer.(*Syncer).Close"); j >= 0 {
+				lo, hi := max(0, j-700), min(len(dump), j+900)
+				dump = dump[lo:hi]
+			} else if len(dump) > 1500 {
+				dump = dump[:1500]
+			}
+			hung = append(hung, fmt.Sprintf("member %d: Syncer.Close did not return within 60 s: %s", r.idx, dump))
+			return hung
+		}
 	}
 	for _, m := range c.mem {
 		select {
 		case <-m.runDone:
 		case <-time.After(30 * time.Second):
+			hung = append(hung, fmt.Sprintf("member %d: Run did not return within 30 s after Close", m.idx))
 		}
 	}
+	return hung
 }
 
 // awaitTips waits until every member's tip is want (universe node) or the deadline passes.
